@@ -309,6 +309,16 @@ Section Family.
         (combine (seq 0 w) cols).
 End Family.
 
+(* query x coordinates (DeepComposer::new) and the family's transition with periodic VALUES at a step
+   (used by the reference validity predicate) *)
+Section Extras.
+  Context {F : Type} (O : FOps F).
+  Definition query_xs (off glde : F) (positions : list nat) : list F :=
+    map (fun p => fmul O (fpow O glde p) off) positions.
+  Definition fam_step_trans (cols : list (FamCol (F:=F))) (cycles : list (list F)) (step : nat) (cur next : list F) : list F :=
+    fam_trans O cols cur next (map (fun cyc => nth (Nat.modulo step (length cyc)) cyc (fzero O)) cycles).
+End Extras.
+
 (* ------------------------------------------------------------------ the statement in the coin seed
    Context::to_elements ++ pub_inputs.to_elements (verifier/src/lib.rs), for a trace without metadata:
    [tinfo_buf; trace_length; m1; m2; opt_buf; grinding; blowup; queries] ++ pub *)
